@@ -19,6 +19,10 @@ fn main() {
 fn real_main() {
     shredh::quiet_panics();
     let a = Args::from_env();
+    // (rendezvous runs have their own, per-attempt watchdog and long deliberate waits)
+    if a.cmd() != "rendezvous" {
+        shredh::hang_watchdog(a.num("hang-secs", 240));
+    }
     match a.cmd() {
         "random" => random(&a),
         "prog" => progs(&a),
@@ -86,8 +90,10 @@ fn random(a: &Args) {
     // --boundary: the programs of prog::gen_boundary after the random ones
     let nb = if a.flag("boundary") { (0..).take_while(|i| shredh::prog::gen_boundary(*i, &mut StdRng::seed_from_u64(0)).is_some()).count() } else { 0 };
     for k in 0..count + nb {
+        shredh::progress();
         shredh::unwind::set(rng.gen_bool(a.num("punwind", 0.08)));
         shredh::record::set_early_pool(rng.gen_bool(0.3));
+        shredh::build::set_nohook(if rng.gen_bool(0.5) { 0.25 } else { 0.0 });
         shredh::build::set_zst(if rng.gen_bool(0.25) { 0.5 } else { 0.0 });
         shredh::build::set_noise(if rng.gen_bool(0.2) { 0.06 } else { 0.0 });
         let mut cfg = base.clone();
@@ -305,6 +311,7 @@ fn lifecycle_cmd(a: &Args) {
     for k in 0..count {
         shredh::unwind::set(rng.gen_bool(a.num("punwind", 0.12)));
         shredh::record::set_early_pool(rng.gen_bool(0.3));
+        shredh::build::set_nohook(if rng.gen_bool(0.5) { 0.25 } else { 0.0 });
         shredh::build::set_zst(if rng.gen_bool(0.25) { 0.5 } else { 0.0 });
         shredh::build::set_noise(if rng.gen_bool(0.2) { 0.06 } else { 0.0 });
         let mut cfg = base.clone();
@@ -376,6 +383,7 @@ fn async_cmd(a: &Args) {
     for k in 0..count {
         shredh::unwind::set(rng.gen_bool(a.num("punwind", 0.12)));
         shredh::record::set_early_pool(rng.gen_bool(0.3));
+        shredh::build::set_nohook(if rng.gen_bool(0.5) { 0.25 } else { 0.0 });
         let zst = if rng.gen_bool(0.25) { 0.5 } else { 0.0 };
         shredh::build::set_zst(zst);
         let noise = if rng.gen_bool(0.2) { 0.06 } else { 0.0 };
@@ -491,7 +499,7 @@ fn rendezvous_cmd(a: &Args) {
     let mut rng = StdRng::seed_from_u64(seed);
     let mut w = BufWriter::new(File::create(out).unwrap());
     let cores = std::thread::available_parallelism().map(|n| n.get()).unwrap_or(1);
-    let contexts = ["user", "user_par", "default", "batch", "batch_then_pool", "batch_nested", "batch_siblings", "default_outer_batch", "default_neighbour", "default_built_on_worker", "shared_after_async", "async", "foreign"];
+    let contexts = ["user", "user_par", "default", "batch", "batch_then_pool", "batch_nested", "batch_siblings", "default_outer_batch", "default_neighbour", "default_built_on_worker", "shared_after_async", "async", "async_repeat", "foreign"];
     let hint_sets: Vec<Vec<u8>> = vec![vec![3], vec![1], vec![5], vec![1, 5], vec![2, 3, 4], vec![1, 1, 2]];
     let (mut runs, mut stalls, mut skipped) = (0usize, 0usize, 0usize);
     let mut samples = Vec::new();
@@ -513,9 +521,11 @@ fn rendezvous_cmd(a: &Args) {
                 continue;
             }
             // one attempt = build + `reps` dispatches; returns the events and whether any system timed out
-            let attempt = |reps: usize| -> (Vec<serde_json::Value>, bool) {
+            let hints_c = hints.clone();
+            let attempt_body = move |reps: usize| -> (Vec<serde_json::Value>, bool) {
+                let hints = hints_c.clone();
                 let rv = Rv::new(width, timeout);
-                let psize = width + extra + if ctxname.starts_with("batch") || ctxname == "async" { 1 } else { 0 };
+                let psize = width + extra + if ctxname.starts_with("batch") || ctxname.starts_with("async") { 1 } else { 0 };
                 let mut evs = Vec::new();
                 let mut any_to = false;
                 let world = World::empty();
@@ -580,6 +590,15 @@ fn rendezvous_cmd(a: &Args) {
                             let mut d = b.build();
                             std::thread::sleep(Duration::from_millis(12));
                             d.dispatch(&world);
+                        }
+                        "async_repeat" => {
+                            // further dispatches issued while the first frame is still running wait on the CALLER's
+                            // side: they take no pool thread away from the running stage
+                            let mut ad = rv_builder(&rv, &hints).with_pool(pool_of(psize)).build_async(World::empty());
+                            ad.dispatch();
+                            ad.dispatch();
+                            ad.dispatch();
+                            ad.wait();
                         }
                         "default_built_on_worker" => {
                             // the default pool is sized by the machine, wherever `build` happens to be called: here on
@@ -659,8 +678,36 @@ fn rendezvous_cmd(a: &Args) {
                 }
                 (evs, any_to)
             };
+            // a dispatch that never returns (dead-locked pool) must end the attempt too: the attempt runs on a
+            // thread of its own and is given up after 3 x timeout + 15 s (the stuck threads are left behind)
+            let attempt_body = Arc::new(attempt_body);
+            let hang_after = timeout * 3 + Duration::from_secs(15);
+            let hints_h = hints.clone();
+            let attempt = move |reps: usize| -> (Vec<serde_json::Value>, bool) {
+                let (tx, rx) = std::sync::mpsc::channel();
+                let body = attempt_body.clone();
+                std::thread::spawn(move || {
+                    let _ = tx.send(body(reps));
+                });
+                match rx.recv_timeout(hang_after * reps as u32) {
+                    Ok(r) => r,
+                    Err(_) => (
+                        vec![
+                            json!({"ev":"rvbegin","w":width,"pool":width,"ctx":ctxname,"stages":1,"width":width,"hints":hints_h}),
+                            json!({"ev":"rvend","stalled":true,"hung":true}),
+                        ],
+                        true,
+                    ),
+                }
+            };
             let (mut evs, mut stalled) = attempt(reps);
-            if stalled {
+            let hung = evs.iter().any(|e| e["hung"] == true);
+            if hung {
+                // a dispatch that did not return at all within 3 x timeout + 15 s: every rendezvous system gives up
+                // after `timeout`, so no scheduling delay explains it - no repetition needed (and the stuck
+                // threads may hold the pools)
+                stalls += 1;
+            } else if stalled {
                 // S2: a stall is only believed if it reproduces twice more, immediately
                 let (e2, s2) = attempt(1);
                 let (e3, s3) = attempt(1);
@@ -882,6 +929,7 @@ fn pools_cmd(a: &Args) {
     let total = behaviours.len();
     let mut samples = Vec::new();
     for (k, (calls, expect)) in behaviours.iter().enumerate() {
+        shredh::progress();
         let log = Arc::new(Mutex::new(Vec::new()));
         let nb = calls.iter().map(|c| c.1.max(if c.0 == "addbatch" { c.2 } else { 0 })).max().unwrap_or(0);
         let mut builders: Vec<Option<B>> = (0..=nb).map(|_| None).collect();
